@@ -22,6 +22,41 @@ DEFAULT_DROP_USE = [
 
 WORLD_PARAM = 'w: &mut World'
 
+def decode_rust_bytes(body):
+    out = bytearray(); i = 0
+    while i < len(body):
+        c = body[i]
+        if c == '\\':
+            n = body[i + 1]
+            if n == 'x': out.append(int(body[i + 2:i + 4], 16)); i += 4
+            elif n == 'n': out.append(10); i += 2
+            elif n == 'r': out.append(13); i += 2
+            elif n == 't': out.append(9); i += 2
+            elif n == '0': out.append(0); i += 2
+            elif n == '\\': out.append(92); i += 2
+            elif n == '"': out.append(34); i += 2
+            elif n == "'": out.append(39); i += 2
+            elif n == '\n':
+                i += 2
+                while i < len(body) and body[i] in ' \t\n': i += 1
+            else: raise LostAnchor('unknown escape \\%s in byte string' % n)
+        else:
+            out += c.encode('utf-8'); i += 1
+    return bytes(out)
+
+def bytestr_edits(src, m, a, b):
+    """rule R20: byte-string literals b\"..\" between offsets a and b -> array literals &[..u8] (exact decoding);
+    returns [(start, end, replacement)] with newline count preserved"""
+    res = []
+    for mo in re.finditer(r'(?<![A-Za-z0-9_])b"[^"]*"', m[a:b]):
+        st, en = a + mo.start(), a + mo.end()
+        body = src[st + 2:en - 1]
+        data = decode_rust_bytes(body)
+        rep = '(&[' + ', '.join('%du8' % x for x in data) + '])'
+        rep += '\n' * src[st:en].count('\n')
+        res.append((st, en, rep))
+    return res
+
 class Emitter:
     def __init__(self):
         self.chunks = []   # (text, origin) origin = (kind, file, line0) ; line0 = line of first char
@@ -316,6 +351,9 @@ class Unit:
                 a0 = bo + mo.start()
                 edits.append((a0, mo.end() - mo.start(), [(newt + '\n' * missing, ('repo', repo_file, line(a0)))]))
                 self.report['rewrites'].append({'rule': rule, 'file': repo_file, 'line': line(a0), 'before': mo.group(0), 'after': newt})
+        for st_, en_, rep_ in bytestr_edits(src, m, bo, item.end):
+            edits.append((st_, en_ - st_, [(rep_, ('repo', repo_file, line(st_)))]))
+            self.report['rewrites'].append({'rule': 'R20', 'file': repo_file, 'line': line(st_), 'before': src[st_:en_][:40], 'after': rep_[:40]})
         edits.sort(key=lambda e: (e[0], e[1]))
         # an insertion strictly inside a replaced region cannot be honoured
         for i, (off, dl, ins) in enumerate(edits):
@@ -344,6 +382,9 @@ class Unit:
         line = lambda off: rustscan.line_of(src, off)
         attrs_txt = src[item.attr_start:item.start]
         text = src[item.start:item.end]
+        for st_, en_, rep_ in reversed(bytestr_edits(src, item.m, item.start, item.end)):
+            text = text[:st_ - item.start] + rep_ + text[en_ - item.start:]
+            self.report['rewrites'].append({'rule': 'R20', 'file': repo_file, 'line': line(st_), 'before': src[st_:en_][:40], 'after': rep_[:40]})
         tspec = fspec.types.get(item.name) if (fspec and item.kind in ('struct', 'enum')) else None
         # doc comments are comments: keep. Derives: drop the ones Verus cannot take.
         def fix_derive(mo):
